@@ -96,9 +96,10 @@ def run_machine(sc):
     from statemachine.event_data import EventData
     got = []
     ns = {"_D": _D, "State": State, "StateMachine": StateMachine, "GOT": got}
+    where = {"on": "on='f'", "cond": "cond='f'", "expr": "cond='f >= 1'", "expr2": "cond='0 < f and f == 1'"}[sc.get("where", "on")]
     src = ("class M(StateMachine):\n    s0 = State(initial=True)\n    s1 = State()\n"
-           "    go = s0.to(s1, on='f')\n" + render_def(sc, extra_first="self", indent="    ").replace(
-               "        return ", "        GOT.append(") .rstrip() + ")\n")
+           f"    go = s0.to(s1, {where})\n" + render_def(sc, extra_first="self", indent="    ").replace(
+               "        return ", "        GOT.append(") .rstrip() + ")\n        return 1\n")
     from statemachine.signature import SignatureAdapter
     fc = SignatureAdapter.from_callable
     getattr(fc, "__func__", fc).clear_cache()
@@ -330,7 +331,8 @@ def machine_case(rng):
     kwn = [x for x in list(range(50, 58)) + [1, 2, 3, 20] if rng.random() < 0.35]
     rng.shuffle(kwn)
     return {"sig": sig, "args": [100 + i for i in range(rng.randint(0, 3))],
-            "kw": [[x, 200 + x] for x in kwn], "shape": "machine"}
+            "kw": [[x, 200 + x] for x in kwn], "shape": "machine",
+            "where": rng.choice(["on", "on", "cond", "expr", "expr2"])}
 
 
 def generate(rng, tier):
